@@ -1228,6 +1228,12 @@ where
 		let outstanding =
 			updater::retrieve_txs(&mut **w, None, None, None, Some(&parent_key_id), true)?;
 		for tx in outstanding {
+			// (a reverted entry is a payment that was mined in time and then reorganised
+			// away: it is waiting to be mined again, not for a counterparty's answer, and
+			// stays reported as reverted)
+			if tx.tx_type == TxLogEntryType::TxReverted {
+				continue;
+			}
 			if let Some(e) = tx.ttl_cutoff_height {
 				if tip.0 >= e {
 					tx::cancel_tx(&mut **w, keychain_mask, &parent_key_id, Some(tx.id), None)?;
